@@ -62,6 +62,12 @@ VX double verif_sf(int op, double a, double b, double c, int i, int j)
 	}
 	return -12345.0;
 }
+// two-call history in one process: the value of the second call (C06 history independence)
+VX double verif_sf_seq(int op, double a0, double b0, double a1, double b1)
+{
+	verif_sf(op, a0, b0, 0.0, 0, 0);
+	return verif_sf(op, a1, b1, 0.0, 0, 0);
+}
 // vector spherical harmonics coefficient tables: which = 0 (Y) / 1 (Psi); out = {re, im}
 VX void verif_vsh(int which, int component, int l, int m, int l_hat, int m_hat, double* out)
 {
